@@ -107,3 +107,162 @@ def check(ctx, res, rule):
                   "every write of add and finish stays inside the reserved buffer and the block size is entries + 4 per restart + 4, whatever room the buffer had",
                   "; ".join(problems[:2]), add.loc(add.body))
     res.tables.setdefault("block_builder_scenarios", {})[rule] = nrun
+
+
+# ---------------------------------------------------------------------------------------------------------------------
+ENC_SEQS = [[(0, 0)], [(1, 0), (2, 1)], [(3, 2), (3, 0), (4, 5)], [(2, 130)], [(130, 1), (131, 3)]]
+
+
+def _byte(s, A, off):
+    b = s.mem.get((A, off))
+    if b is None:
+        return None
+    return tuple(s.norm(x) for x in b)
+
+
+def _varint_at(s, A, off, limit):
+    """(value, length) of a varint made of known bits at off, or None."""
+    v = 0
+    for k in range(5):
+        if off + k >= limit:
+            return None
+        b = _byte(s, A, off + k)
+        if b is None or any(x not in (0, 1) for x in b):
+            return None
+        byte = sum(bit << i for i, bit in enumerate(b))
+        v |= (byte & 0x7f) << (7 * k)
+        if not byte & 0x80:
+            return v, k + 1
+    return None
+
+
+def entry_encoding(ctx, res, rule):
+    """Block entry row and block trailer of T-format, decided on the bytes the builder produces.
+
+    The real block_builder_add / block_builder_finish (with the vector macro and the codecs underneath) are interpreted on
+    entries of concrete lengths and symbolic bytes.  A comparison of key bytes splits the trace, so each trace knows which
+    leading bytes of consecutive keys are equal.  After every add the bytes appended must be
+        varint(shared) varint(len_key - shared) varint(len_val) key[shared:] value
+    with `shared` bytes of the key equal, on this trace, to the previous key's (0 at a restart point), and the restart array
+    must have gained the entry's offset exactly at restart points; after finish the tail must be the restart offsets as
+    32-bit little-endian words followed by their count.  Lengths below and above 127 are covered (multi-byte headers)."""
+    prog = ctx.prog
+    init = prog.need("block_builder_init", U)
+    add = prog.need("block_builder_add", U)
+    fin = prog.need("block_builder_finish", U)
+    res.floor(rule, 2)
+    ntr = 0
+    for interval in (1, 16):
+        problems = []
+        for seq in ENC_SEQS:
+            if len(problems) > 3:
+                break
+            if interval == 1 and max(l for l, _ in seq) > 100:
+                continue
+            I = M.MemInterp(prog, U)
+            I.max_paths = 20000
+            I.fuel = 600
+            st = I.new_state()
+            try:
+                outs = I.call(st, init, [interval])
+                st, b = outs[0]
+                states = [(st, [0], [])]        # state, restart offsets, entries so far as (offset, key buffer id, lk)
+                for k, (lk, lv) in enumerate(seq):
+                    nxt = []
+                    for s, rst, ents in states:
+                        ub = _field(s, b, "buf")
+                        n0 = _cnum(s, _field(s, ub, "_n")) or 0
+                        kb, vb = ("p", 10 + 2 * k), ("p", 11 + 2 * k)
+                        for s2, _r in I.call(s, add, [b, B.Ptr(kb, 0), lk, B.Ptr(vb, 0), lv]):
+                            ntr += 1
+                            A = _field(s2, ub, "_v").base
+                            n1 = _cnum(s2, _field(s2, ub, "_n"))
+                            is_restart = (k % interval == 0)
+                            where = "interval %d, entry %d of lengths %s" % (interval, k, seq)
+                            h1 = _varint_at(s2, A, n0, n1)
+                            h2 = _varint_at(s2, A, n0 + h1[1], n1) if h1 else None
+                            h3 = _varint_at(s2, A, n0 + h1[1] + h2[1], n1) if h1 and h2 else None
+                            if not (h1 and h2 and h3):
+                                problems.append("%s: the entry does not start with three varints of known value" % where)
+                                continue
+                            shared, nonsh, vlen = h1[0], h2[0], h3[0]
+                            pos = n0 + h1[1] + h2[1] + h3[1]
+                            bad = None
+                            if nonsh != lk - shared or shared > lk:
+                                bad = "shared %d + non_shared %d is not the key length %d" % (shared, nonsh, lk)
+                            elif vlen != lv:
+                                bad = "value length field is %d, the value has %d bytes" % (vlen, lv)
+                            elif n1 != pos + nonsh + lv:
+                                bad = "the entry occupies %d bytes, header + suffix + value need %d" % (n1 - n0, pos - n0 + nonsh + lv)
+                            elif is_restart and shared != 0:
+                                bad = "a restart entry shares %d bytes with its predecessor" % shared
+                            elif shared and not ents:
+                                bad = "the first entry shares %d bytes with nothing" % shared
+                            if bad is None and shared:
+                                _o, pkb, plk = ents[-1]
+                                if shared > plk:
+                                    bad = "shares %d bytes with a previous key of %d bytes" % (shared, plk)
+                                else:
+                                    for i in range(shared):
+                                        for j in range(8):
+                                            if s2.norm(("d", kb, i, j)) != s2.norm(("d", pkb, i, j)):
+                                                bad = "byte %d is counted as shared although this trace does not know it equals the previous key's" % i
+                                                break
+                                        if bad:
+                                            break
+                            if bad is None:
+                                for i in range(nonsh):
+                                    got = _byte(s2, A, pos + i)
+                                    want = tuple(s2.norm(("d", kb, shared + i, j)) for j in range(8))
+                                    if got != want:
+                                        bad = "suffix byte %d is not key byte %d" % (i, shared + i)
+                                        break
+                            if bad is None:
+                                for i in range(lv):
+                                    got = _byte(s2, A, pos + nonsh + i)
+                                    want = tuple(s2.norm(("d", vb, i, j)) for j in range(8))
+                                    if got != want:
+                                        bad = "value byte %d is not the value's" % i
+                                        break
+                            rv = _field(s2, b, "restarts")
+                            nr = _cnum(s2, _field(s2, rv, "_n"))
+                            rst2 = rst + [n0] if (is_restart and k > 0) else rst
+                            if bad is None and nr != len(rst2):
+                                bad = "the restart array has %s entries after this add, expected %d" % (nr, len(rst2))
+                            if bad:
+                                problems.append("%s: %s" % (where, bad))
+                                continue
+                            nxt.append((s2, rst2, ents + [(n0, kb, lk)]))
+                    states = nxt[:40]
+                for s, rst, ents in states[:6]:
+                    ub = _field(s, b, "buf")
+                    n0 = _cnum(s, _field(s, ub, "_n")) or 0
+                    h = s.ext["heap"]
+                    k0 = h.next
+                    h.allocs[k0] = [8, True, True]
+                    h.allocs[k0 + 1] = [8, True, True]
+                    h.next = k0 + 2
+                    A = _field(s, ub, "_v").base
+                    for s2, _r in I.call(s, fin, [b, B.Ptr(("A", k0), 0), B.Ptr(("A", k0 + 1), 0)]):
+                        out = s2.ext["heap"].pcells.get((("A", k0), 0))
+                        OA = out.base if isinstance(out, B.Ptr) else A
+                        words = rst + [len(rst)]
+                        for wi, w in enumerate(words):
+                            got = 0
+                            okb = True
+                            for bi_ in range(4):
+                                bb = _byte(s2, OA, n0 + 4 * wi + bi_)
+                                if bb is None or any(x not in (0, 1) for x in bb):
+                                    okb = False
+                                    break
+                                got |= sum(bit << i for i, bit in enumerate(bb)) << (8 * bi_)
+                            if not okb or got != w:
+                                problems.append("interval %d, lengths %s: trailer word %d is %s, expected %d (restart offsets %s then their count)"
+                                                % (interval, seq, wi, got if okb else "not a known value", w, rst))
+                                break
+            except M.MemFault as e:
+                problems.append("interval %d, lengths %s: %s" % (interval, seq, e))
+        res.check(not problems, rule, "block_builder:entry-encoding:interval=%d" % interval,
+                  "every entry is varint(shared) varint(non_shared) varint(value_len) suffix value with truly shared bytes, restart points and the block trailer as in the format table",
+                  "; ".join(problems[:2]), add.loc(add.body))
+    res.tables.setdefault("entry_encoding_traces", {})[rule] = ntr
